@@ -187,8 +187,9 @@ fn eval_cli(map: &[Option<usize>], cs: &CallSet, rows: &[Vec<Cls>], container: C
         let name = match container { Container::Vcf => "calls.vcf", Container::VcfGz => "calls.vcf.gz", Container::Bcf | Container::RawBcf => "calls.bcf" };
         let path = dir.join(name);
         std::fs::write(&path, &bytes).expect("scratch write");
-        args.push(path.to_str().unwrap());
-        let o = run_sfs(&args, Stdin::Null, scratch);
+        let mut with_path = args.clone();
+        with_path.push(path.to_str().unwrap());
+        let o = run_sfs(&with_path, Stdin::Null, scratch);
         let _ = std::fs::remove_dir_all(&dir);
         o
     } else {
@@ -206,10 +207,22 @@ fn eval_cli(map: &[Option<usize>], cs: &CallSet, rows: &[Vec<Cls>], container: C
         Ok(()) => None,
         Err(e) => {
             let cls = if rows.len() == 1 { row_class(map, &rows[0]) } else { "multi-record" };
+            let mut case = cli_case(map, cs, container, what);
+            if let J::Obj(o) = &mut case {
+                // everything a stand-alone re-run needs: argv (without a by-path input), input bytes, accepted outputs
+                let argv: Vec<&str> = args.clone();
+                o.push(("argv".into(), J::strs(&argv)));
+                o.push(("input_hex".into(), J::s(crate::json::hex(&bytes))));
+                o.push(("by_path_name".into(), if what == "by-path" { J::s(match container { Container::Vcf => "calls.vcf", Container::VcfGz => "calls.vcf.gz", Container::Bcf | Container::RawBcf => "calls.bcf" }) } else { J::Null }));
+                o.push(("expect_shape".into(), J::usizes(&expect.spectrum.shape)));
+                o.push(("expect_data".into(), J::f64s(&expect.spectrum.data)));
+                o.push(("alt_expect_data".into(), alt_expect.as_ref().map_or(J::Null, |a| J::f64s(&a.spectrum.data))));
+                o.push(("error_accepted".into(), J::Bool(what == "repeated-entry" || what == "contradictory-entry")));
+            }
             Some((
                 format!("C01|cli|create-wrong|{}|{cls}|{what}", container.name()),
-                format!("sfs create -s {} on {} ({what}, rows {:?}): {e}", sample_arg(map), container.name(), rows.iter().map(|r| row_str(r)).take(8).collect::<Vec<_>>()),
-                cli_case(map, cs, container, what),
+                format!("sfs create -s {sa} on {} ({what}, rows {:?}): {e}", container.name(), rows.iter().map(|r| row_str(r)).take(8).collect::<Vec<_>>()),
+                case,
             ))
         }
     }
@@ -496,29 +509,37 @@ pub fn replay(case: &J) -> Option<Vec<String>> {
         }
         "c01-cli" => {
             let scratch = Scratch::new("c01r");
-            let vcf = case.get("vcf")?.as_str()?;
-            let what = case.get("what").and_then(|w| w.as_str()).unwrap_or("").to_string();
-            let mut sa = case.get("samples")?.as_str()?.to_string();
-            if what == "grouped-by-population" {
-                let mut entries: Vec<(usize, String)> = sa.split(',').map(|e| (e.rsplit("=p").next().unwrap().parse::<usize>().unwrap_or(0), e.to_string())).collect();
-                entries.reverse();
-                entries.sort_by_key(|e| e.0);
-                sa = entries.into_iter().map(|e| e.1).collect::<Vec<_>>().join(",");
+            let argv: Vec<String> = case.get("argv")?.as_arr()?.iter().filter_map(|a| a.as_str().map(|s| s.to_string())).collect();
+            let mut args: Vec<&str> = argv.iter().map(|s| s.as_str()).collect();
+            let bytes = crate::json::unhex(case.get("input_hex")?.as_str()?)?;
+            let shape = case.get("expect_shape")?.as_usizes()?;
+            let data: Vec<f64> = case.get("expect_data")?.as_arr()?.iter().filter_map(|v| v.as_f64()).collect();
+            let expect = RefArray { shape: shape.clone(), data };
+            let alt: Option<RefArray> = case.get("alt_expect_data").and_then(|a| a.as_arr()).map(|a| RefArray { shape: shape.clone(), data: a.iter().filter_map(|v| v.as_f64()).collect() });
+            let path_holder;
+            let o = match case.get("by_path_name").and_then(|n| n.as_str()) {
+                Some(name) => {
+                    let dir = scratch.path(".d");
+                    std::fs::create_dir_all(&dir).ok()?;
+                    path_holder = dir.join(name);
+                    std::fs::write(&path_holder, &bytes).ok()?;
+                    args.push(path_holder.to_str()?);
+                    run_sfs(&args, Stdin::Null, &scratch)
+                }
+                None => run_sfs(&args, Stdin::Bytes(&bytes), &scratch),
+            };
+            if matches!(case.get("error_accepted"), Some(J::Bool(true))) && o.diagnosed_error() && o.stdout.is_empty() {
+                return Some(vec![]);
             }
-            if what == "repeated-entry" {
-                let first = sa.split(',').next().unwrap_or("").to_string();
-                sa = format!("{sa},{first}");
+            if let Some(a) = &alt {
+                if judge_stdout(&o, a).is_ok() {
+                    return Some(vec![]);
+                }
             }
-            let mut args: Vec<&str> = vec!["create", "-s", &sa];
-            if let Some(p) = what.strip_prefix("precision-") {
-                args.extend(["--precision", p]);
-            }
-            if let Some(v) = what.strip_prefix("verbosity") {
-                args.push(v);
-            }
-            let o = run_sfs(&args, Stdin::Bytes(vcf.as_bytes()), &scratch);
-            println!("replay (vcf rendering of the case): {} stdout {:?} stderr {:?}", o.status_str(), o.stdout_str(), o.stderr_str());
-            None
+            Some(match judge_stdout(&o, &expect) {
+                Ok(()) => vec![],
+                Err(e) => vec![format!("C01|cli|create-wrong :: {args:?}: {e}")],
+            })
         }
         _ => None,
     }
